@@ -244,6 +244,12 @@ class WSStream:
             await self._handle_events()
         elif isinstance(event, StreamClosed):
             self.closed = True
+            if (
+                self.state in {ASGIWebsocketState.HANDSHAKE, ASGIWebsocketState.RESPONSE}
+                and getattr(self, "scope", None) is not None
+            ):
+                # Closed before the handshake was answered (in full)
+                await self.config.log.access(self.scope, None, time() - self.start_time)
             if self.app_put is not None:
                 if self.client_close_code is not None:
                     code = self.client_close_code
@@ -261,6 +267,7 @@ class WSStream:
         if message is None:  # ASGI App has finished sending messages
             # Cleanup if required
             if self.state == ASGIWebsocketState.HANDSHAKE:
+                self.state = ASGIWebsocketState.HTTPCLOSED
                 await self._send_error_response(500)
             elif self.state == ASGIWebsocketState.CONNECTED:
                 await self._send_wsproto_event(CloseConnection(code=CloseReason.INTERNAL_ERROR))
